@@ -42,10 +42,12 @@ enum OpKind : uint8_t {
   OP_REGION_LEAVE,
   OP_SELF_ASSIGN,
   OP_MOVECTOR, // appended last: replay files store the index chosen, so earlier kinds keep their meaning
+  OP_REGION_CYCLES, // 2/4/6 empty region_guard scopes in a row (quiescent states / epoch steps): long epoch chains in short programs
   OP_NKINDS
 };
 const char* const op_names[OP_NKINDS] = {"nop", "publish",  "unlink", "acquire", "acquire_if_equal", "load",         "use",          "copy",       "move",
-                                         "swap",     "reset",  "copyctor", "guard_from_marked", "region_enter", "region_leave", "self_assign", "movector"};
+                                         "swap",     "reset",  "copyctor", "guard_from_marked", "region_enter", "region_leave", "self_assign", "movector",
+                                         "region_cycles"};
 
 struct Op {
   uint8_t kind, a, b, c;
@@ -512,6 +514,13 @@ struct Client {
         case OP_REGION_LEAVE:
           if (depth > 0) reinterpret_cast<RG*>(rgs[--depth].buf)->~RG();
           break;
+        case OP_REGION_CYCLES:
+          if (depth == 0)
+            for (int i = 0; i < 2 + 2 * (op.b % 3); ++i) {
+              RG rg;
+              vrt::point();
+            }
+          break;
         default: break;
         }
         check_models(g, gm, op_names[op.kind]);
@@ -549,11 +558,11 @@ struct Client {
   }
 
   void gen_program(int p, bool is_main_prefix) {
-    static const uint32_t w_c01[OP_NKINDS] = {40, 22, 8, 18, 6, 6, 16, 4, 3, 2, 6, 2, 2, 3, 3, 1, 2};
-    static const uint32_t w_c02[OP_NKINDS] = {35, 34, 12, 10, 3, 3, 6, 2, 2, 1, 5, 1, 1, 3, 3, 1, 1};
+    static const uint32_t w_c01[OP_NKINDS] = {40, 22, 8, 18, 6, 6, 16, 4, 3, 2, 6, 2, 2, 3, 3, 1, 2, 4};
+    static const uint32_t w_c02[OP_NKINDS] = {35, 34, 12, 10, 3, 3, 6, 2, 2, 1, 5, 1, 1, 3, 3, 1, 1, 5};
     static const uint32_t w_pre[2] = {1, 1};
     // single-threaded algebra cases (C15): guard-to-guard operations and marked null pointers are frequent
-    static const uint32_t w_alg[OP_NKINDS] = {16, 14, 10, 16, 8, 6, 8, 8, 8, 6, 8, 8, 3, 3, 3, 3, 8};
+    static const uint32_t w_alg[OP_NKINDS] = {16, 14, 10, 16, 8, 6, 8, 8, 8, 6, 8, 8, 3, 3, 3, 3, 8, 3};
     const uint32_t* w = (algebra || vrt::param("copy_heavy", 0)) ? w_alg : (vh::prop_is("C02") || vh::prop_is("C17")) ? w_c02 : w_c01;
     int n = is_main_prefix ? 2 : MAXOPS; // fixed shape: absent operations are NOPs, so zeroing a choice removes one
     nops[p] = n;
@@ -576,7 +585,8 @@ struct Client {
           op.kind = OP_USE;
         else
           depth--;
-      }
+      } else if (op.kind == OP_REGION_CYCLES && depth > 0)
+        op.kind = OP_LOAD;
       progs[p][i] = op;
     }
   }
@@ -599,6 +609,7 @@ struct Client {
         case OP_RESET: vrt::desc(" g%d.reset()%s", o.b, o.c ? "x2" : ""); break;
         case OP_REGION_ENTER:
         case OP_REGION_LEAVE: vrt::desc(" %s", op_names[o.kind]); break;
+        case OP_REGION_CYCLES: vrt::desc(" %dx{region_guard}", 2 + 2 * (o.b % 3)); break;
         case OP_FROM_MARKED: vrt::desc(" g%d=guard(new node);publish(cell%d,mark%d)", o.b, o.a, o.c); break;
         default: vrt::desc(" %s(g%d->g%d)", op_names[o.kind], o.a, o.b); break;
         }
